@@ -127,4 +127,25 @@ PROPS = {
                      "calculator steps pass explicit variables, so the default collection (which legitimately accumulates) is not compared",
                      "panics of the library inside a step are compared like results (same on fresh instance) and counted as observations; they are C03's business"],
     ),
+    "C18": one(
+        60_000, 3_000_000,
+        anchor_files=["calculator/variables/VariableCollection.go", "calculator/functions/FunctionCollection.go", "calculator/ExpressionCalculator.go",
+                      "mustache/MustacheTemplate.go", "calculator/parsers/ExpressionParser.go", "mustache/parsers/MustacheParser.go"],
+        rule="A case is one history: (a) 3-30 operations (Add, Get, GetAll + mutation of the returned slice, FindIndexByName, FindByName, Locate, Remove, "
+             "RemoveByName, Clear, ClearValues, SetValue; names that collide case-insensitively) on a VariableCollection or FunctionCollection against an "
+             "ordered-list model, or (b) 2-12 operations on one calculator / template: SetExpression / SetTemplate with generated text whose identifier "
+             "roles the generator knows (variables, quoted identifiers, functions, keywords in random case, string constants, comments, section words), "
+             "SetAutoVariables, edits and removals in the default collection, Evaluate, EvaluateUsingVariables with one name left out. Non-trivial: at "
+             "least 3 operations with at least one state change. Distinct: hash of (scenario, operation list).",
+        state_measure="distinct (scenario, size of the model collection, auto-variables flag, operation) tuples",
+        fault_kinds=[],
+        probes=["getall_mutated", "case_insensitive_hit", "first_added_wins_checked", "auto_variables_applied", "default_variable_removed",
+                "var_not_found_named", "func_not_found_named"],
+        real=["variables.VariableCollection", "functions.FunctionCollection", "ExpressionCalculator", "ExpressionParser", "MustacheTemplate", "MustacheParser"],
+        stub=["recordingCollection (a VariableCollection whose FindByName finds nothing, to read the calculator's discovered names in order)"],
+        assumptions=["discovery is checked only for generated inputs whose identifier roles are known to the generator",
+                     "an evaluation is required to fail with a not-found error only for 'simple' generated expressions that cannot fail for another reason; "
+                     "for all expressions a VAR_NOT_FOUND error must name a variable that really is missing",
+                     "fault kinds: missing variable / function only (modelled as operations of the history)"],
+    ),
 }
